@@ -48,6 +48,48 @@ theorem check_off_never_rejects (opcode : Nat) (ps : List Bytes) :
   unfold buffersCheck bytesCheck checkEncoding
   simp
 
+/-- **A valid piece can be dropped from the front.** If a prefix is itself valid UTF-8 the verdict on
+the whole is the verdict on the rest; so per-piece validation is *sufficient* for whole-payload
+validity (the verdicts of pieces compose)… -/
+theorem valid_append_of_valid (a b : Bytes) (ha : Spec.Utf8.valid a = true) :
+    Spec.Utf8.valid (a ++ b) = Spec.Utf8.valid b := by
+  open Spec.Utf8 in
+  fun_induction valid a
+  all_goals first
+    | (simp; done)
+    | (simp at ha; done)
+    | skip
+  all_goals
+    rename_i ih
+    simp only [List.cons_append]
+    conv => lhs; unfold Spec.Utf8.valid
+    simp only [*, ↓reduceIte, Bool.false_eq_true]
+    try simp only [Bool.and_eq_true] at ha
+  · simp [ih ha.2, ha.1]
+  · simp only [ih ha.2, ha.1.1, ha.1.2]; simp
+  · simp only [ih ha.2, ha.1.1.1, ha.1.1.2, ha.1.2]; simp
+
+/-- slices that are each valid form a payload the gate accepts -/
+theorem pieces_valid_imp_gate (ps : List Bytes) (h : ∀ p ∈ ps, Spec.Utf8.valid p = true) :
+    buffersCheck true 1 ps = true := by
+  rw [write_gate 1 ps (Or.inl rfl)]
+  induction ps with
+  | nil => simp [Spec.Utf8.valid]
+  | cons p ps ih =>
+    rw [List.flatten_cons, valid_append_of_valid p _ (h p (by simp))]
+    exact ih fun q hq => h q (by simp [hq])
+
+/-- …but **not necessary**: the gate accepts a payload none of whose slices is valid by itself (a
+code point split between slices). A per-slice validator is therefore strictly stronger than the
+property allows — this is the difference between `write_gate` and the defect repaired in section 6. -/
+theorem per_piece_check_too_strict :
+    buffersCheck true 1 [[0xE4, 0xB8], [0xAD]] = true ∧
+    Spec.Utf8.valid [0xE4, 0xB8] = false ∧ Spec.Utf8.valid [0xAD] = false := by
+  refine ⟨?_, ?_, ?_⟩
+  · rw [write_gate 1 _ (Or.inl rfl)]; simp [Spec.Utf8.valid, Spec.Utf8.isCont]
+  · simp [Spec.Utf8.valid]
+  · simp [Spec.Utf8.valid]
+
 -- non-vacuity: "中" = e4 b8 ad split inside the code point is accepted; a lone continuation byte is not
 example : buffersCheck true 1 [[0xe4, 0xb8], [0xad]] = true := by
   rw [write_gate 1 _ (Or.inl rfl)]; simp [Spec.Utf8.valid, Spec.Utf8.isCont]
